@@ -365,7 +365,7 @@ def kFirst := K fSP "span::first" "count <= size()"
 def kLast := K fSP "span::last" "count <= size()"
 def kSubOff := K fSP "span::subspan" "offset <= size()"
 def kSubCnt := K fSP "span::subspan" "count != dynamic_extent ? (count <= size() - offset) : true"
-def dyn : Nat := U64 - 1
+abbrev dyn : Nat := U64 - 1
 
 def at_ (i : Nat) : M Out := do guard kAt (fun s => i < s.size); let x ← rdAt i; pure [x]
 def front : M Out := do guard kFront (fun s => s.size != 0); let x ← rdAt 0; pure [x]
